@@ -256,7 +256,7 @@ func c08BlindCheck(l *explore.Local, _ struct{}, c c08Blind) *explore.Fail {
 func init() {
 	register("C08", "model_checking", func(c *Ctx) {
 		if c.R != nil {
-			c.R.Rule = "per cartridge (controller x declared ROM size): breadth-first closure of the controller register machine under writes of values to 14 control-region representative addresses, successors by in-place snapshot/restore of the real controller, de-duplicated on (visible page ids, model registers); after every write both ROM windows are identified through unique page signatures and compared with the documented bank arithmetic; plus every sequence of 3 (thorough 4) control writes made without reading in between followed by one observation of the ROM and RAM windows; plus 4 fixed-order sweeps of all 3584 (address,value) writes on every supported cartridge-type byte and a byte-by-byte re-read of every ROM page"
+			c.R.Rule = "per cartridge (controller x declared ROM size): breadth-first closure of the controller register machine under writes of values to 14 control-region representative addresses, successors by in-place snapshot/restore of the real controller, de-duplicated on (visible page ids, model registers); after every write both ROM windows are identified through unique page signatures and compared with the documented bank arithmetic; plus every sequence of 3 (thorough 4) control writes made without reading in between followed by one observation of the ROM and RAM windows; plus 4 fixed-order sweeps of all 3584 (address,value) writes on every supported cartridge-type byte and a byte-by-byte re-read of every ROM page; secondary evidence: every edge of the TLC state graph of tla/MBC1.tla (an independent restatement of the MBC1 register machine, 128 and 16 ROM pages) replayed on the real Mapper, both ROM windows and the RAM window compared"
 			c.R.Assumptions = []string{"ROM sizes up to each controller's documented maximum (ROM-only 32 KiB, MBC1/MBC3 2 MiB, MBC2 256 KiB, MBC5 8 MiB)", "synthetic images: every 16 KiB page carries its index at 4 offsets"}
 		}
 		for _, k := range c08Kinds {
@@ -367,5 +367,6 @@ func init() {
 					}
 				}
 			}, func() struct{} { return struct{}{} }, c08BlindCheck)
+		c08TLCPart(c)
 	})
 }
